@@ -80,10 +80,15 @@ type API struct {
 	dead   map[string]bool
 	Admit  Admit
 	OnCall func(c Call)
+	// Pod deletes issued by a stepped controller are not gated (ConcurrentTasks issues them from several
+	// goroutines in scheduler order). To keep runs reproducible their effect is deferred to the end of the
+	// segment, where FlushPodDeletes applies them in name order; the caller gets the outcome at once (it only
+	// depends on that Pod).
+	pendingDel map[string][]Call
 }
 
 func NewAPI(c clock.PassiveClock) *API {
-	return &API{Clock: c, objs: map[string]map[string]runtime.Object{}, logs: map[string][]Event{}, gates: map[string]Gate{}, dead: map[string]bool{}}
+	return &API{Clock: c, objs: map[string]map[string]runtime.Object{}, logs: map[string][]Event{}, gates: map[string]Gate{}, dead: map[string]bool{}, pendingDel: map[string][]Call{}}
 }
 
 func key(ns, name string) string { return ns + "/" + name }
@@ -322,6 +327,15 @@ func (a *API) react(actor string, action ktesting.Action) (bool, runtime.Object,
 			force = true
 		}
 		call.Force = force
+		if res == "pods" && g != nil {
+			for _, pc := range a.pendingDel[actor] {
+				if pc.Key == call.Key && pc.Force {
+					return true, nil, kerrors.NewNotFound(gr(res), act.GetName())
+				}
+			}
+			a.pendingDel[actor] = append(a.pendingDel[actor], call)
+			return true, nil, nil
+		}
 		graceful := res == "pods" && !force
 		if len(cm.GetFinalizers()) > 0 || graceful {
 			if cm.GetDeletionTimestamp() == nil {
@@ -347,6 +361,41 @@ func (a *API) react(actor string, action ktesting.Action) (bool, runtime.Object,
 		return true, cur.DeepCopyObject(), nil
 	}
 	return false, nil, nil
+}
+
+// FlushPodDeletes applies the deferred Pod deletes of a stepped actor in name order.
+func (a *API) FlushPodDeletes(actor string) {
+	a.mu.Lock()
+	defer a.mu.Unlock()
+	pend := a.pendingDel[actor]
+	delete(a.pendingDel, actor)
+	sort.SliceStable(pend, func(i, j int) bool { return pend[i].Key < pend[j].Key })
+	for _, call := range pend {
+		cur, ok := a.table("pods")[call.Key]
+		if ok {
+			cm, _ := meta.Accessor(cur)
+			if !call.Force {
+				if cm.GetDeletionTimestamp() == nil {
+					next := cur.DeepCopyObject()
+					nm, _ := meta.Accessor(next)
+					now := metav1.NewTime(a.Clock.Now().Truncate(1e9))
+					nm.SetDeletionTimestamp(&now)
+					nm.SetResourceVersion(a.nextRV())
+					a.table("pods")[call.Key] = next
+					a.emit("pods", "update", cur.DeepCopyObject(), next.DeepCopyObject())
+				}
+			} else {
+				delete(a.table("pods"), call.Key)
+				a.emit("pods", "delete", cur.DeepCopyObject(), cur.DeepCopyObject())
+			}
+		}
+		a.seq++
+		call.Seq = a.seq
+		a.Calls = append(a.Calls, call)
+		if a.OnCall != nil {
+			a.OnCall(call)
+		}
+	}
 }
 
 // Direct performs an action on behalf of an environment actor (user, kubelet,
